@@ -301,6 +301,17 @@ class LazyMixin:
         from .spec import auto_patterns
         extra = auto_patterns([var], z3.And(dom, cond)) or []
         extra = [p for p in extra if not isinstance(p, z3.PatternRef)][:1]
+        if not extra and isinstance(lz.source, SV) and lz.source.ty.kind == "list" and lz.source.term is not None \
+                and var.sort() == z3.IntSort():
+            # "every qualifying source element is in the result": triggered by a mention of that source element
+            cand = self.list_get(lz.source, var)
+            if not self._pattern_safe(cand) and not self.binders:
+                # an ite / store term cannot occur in a trigger: name the source list (matching is modulo equality)
+                named = self.w.fresh(lz.source.ty, "src")
+                self.side_fact(named == lz.source.term)
+                cand = self.list_get(SV(named, lz.source.ty), var)
+            if self._pattern_safe(cand):
+                extra = [cand]
         self.side_fact(z3.ForAll([var], z3.Implies(z3.And(dom, cond),
                                                    z3.And(0 <= inv(var), inv(var) < n, idx(inv(var)) == var)),
                                  patterns=[inv(var)] + extra))
